@@ -11,7 +11,7 @@ REPLAYS = os.path.join(VERIF, 'replays')
 EVID = os.path.join(VERIF, 'evidence')
 sys.path.insert(0, TOOLS)
 from cast import REPO, INC, write_if_changed
-import gen_byteorder, gen_tables, emit_coq, gen_harness
+import gen_byteorder, gen_tables, emit_coq, gen_harness, gen_align
 
 NPROC = 16
 HARNESS_CFLAGS = ['-std=gnu99', '-O1', '-g', '-fsanitize=address,undefined', '-fno-sanitize-recover=all',
@@ -162,7 +162,7 @@ def print_assumptions(prop_file, names):
     return res
 
 # ---------------------------------------------------------------------------
-def build_harness(model, variant='', extra_flags=()):
+def build_harness(model, variant='', extra_flags=(), cc='gcc', base_flags=None):
     """variant '' : the correspondence harness; 'fbe': the same sources with the big-endian helper branch forced"""
     hb = os.path.join(WORK, 'harness' + ('_' + variant if variant else ''))
     os.makedirs(hb, exist_ok=True)
@@ -174,7 +174,7 @@ def build_harness(model, variant='', extra_flags=()):
     errs = []
     def compile_one(s):
         o = os.path.join(hb, re.sub(r'[^A-Za-z0-9]', '_', os.path.relpath(s, '/')) + '.o')
-        r = sh(['gcc'] + HARNESS_CFLAGS + list(extra_flags) + ['-DCOVESA_OPEN1722_VERIF', '-I' + INC, '-I' + os.path.join(TOOLS, 'harness'),
+        r = sh([cc] + (HARNESS_CFLAGS if base_flags is None else list(base_flags)) + list(extra_flags) + ['-DCOVESA_OPEN1722_VERIF', '-I' + INC, '-I' + os.path.join(TOOLS, 'harness'),
                 '-I' + hb, '-c', s, '-o', o], timeout=300)
         if r.returncode != 0:
             errs.append('%s:\n%s' % (s, r.stderr.decode(errors='replace')[:3000]))
@@ -185,7 +185,8 @@ def build_harness(model, variant='', extra_flags=()):
     if errs:
         raise RuntimeError('harness does not compile:\n' + '\n'.join(errs))
     exe = os.path.join(hb, 'hx')
-    r = sh(['gcc', '-fsanitize=address,undefined', '-o', exe] + objs, timeout=300)
+    link = ['-fsanitize=address,undefined'] if base_flags is None else [f for f in base_flags if f.startswith('-fsanitize') or f.startswith('-fno-sanitize')]
+    r = sh([cc] + link + ['-o', exe] + objs, timeout=300)
     if r.returncode != 0:
         raise RuntimeError('harness does not link:\n' + r.stderr.decode(errors='replace')[:3000])
     return exe
@@ -245,6 +246,11 @@ def prepare(force=False):
                 emit_coq.emit(model, gen)
             except Exception as e:
                 ctx['errors'].append('translator T1 (library sources): %s' % e)
+            try:
+                ctx['align'] = gen_align.generate(gen)
+                json.dump(ctx['align'], open(os.path.join(WORK, 'align.json'), 'w'))
+            except Exception as e:
+                ctx['errors'].append('translator T3 (cast / static-storage inventory): %s' % e)
             ctx['t_translate'] = round(time.time() - t0, 1)
             # --- Coq ---
             rc, out, dt = coq_build()
@@ -270,6 +276,7 @@ def prepare(force=False):
             ctx['t_total'] = round(time.time() - t0, 1)
             json.dump(ctx, open(stamp, 'w'))
         ctx['model'] = json.load(open(os.path.join(WORK, 'model.json'))) if os.path.exists(os.path.join(WORK, 'model.json')) else None
+        ctx['align'] = json.load(open(os.path.join(WORK, 'align.json'))) if os.path.exists(os.path.join(WORK, 'align.json')) else None
         ctx['buildlog'] = open(os.path.join(WORK, 'coq_build.log')).read() if os.path.exists(os.path.join(WORK, 'coq_build.log')) else ''
         ctx['deps'] = coq_deps()
         return ctx
